@@ -3,6 +3,7 @@
 package keeper
 
 var verifHarnesses = map[string]func(){
+	"VerifC01ConsumerGenesis": VerifC01ConsumerGenesis,
 	"VerifC01ConsumerApply":   VerifC01ConsumerApply,
 	"VerifC09ConsumerSend":    VerifC09ConsumerSend,
 	"VerifC08ConsumerReports": VerifC08ConsumerReports,
